@@ -43,10 +43,15 @@ def _gen_thread(rw: Any, tid: int, cfg: Dict[str, Any], shape_seed: Optional[int
         host: List[str] = []
         if rw.random() < cfg["host_share"]:
             host = ["hf_add1"]
+        bound = bool(host) and rw.random() < 0.85  # sometimes the name is called but not bound
         text = gen.gen_expr(er, decls, salt=text_salt, depth=er.choice([1, 2, 2, 3, 3, 4]),
                             invalid_share=0.02, host=host, deep_share=cfg["deep_share"])
         ops.append({"op": "K", "id": p, "env": 0, "text": text, "host": host})
-        fspec = {"style": rw.choice(["dict", "list"]), "names": host} if host else None
+        fspec = None
+        if host and bound:
+            fspec = {"style": rw.choice(["dict", "list"]), "names": host}
+            if cfg["host_variants"]:
+                fspec["variant"] = tid + 1  # this thread's own implementation of the same name
         ops.append({"op": "P", "id": p, "ast": p, "env": 0, "functions": fspec})
         for _ in range(rw.choice([1, 1, 2, 3, 4])):
             b = gen.gen_bindings(rw, decls, salt=tid + 1,
@@ -75,7 +80,8 @@ def generate(seed: int, tier: str = "quick") -> Dict[str, Any]:
         "same_shape": rc.random() < 0.5,
         "same_text": rc.random() < 0.3,
         "same_env": gen.gen_env(rc, "C") if rc.random() < 0.6 else None,
-        "host_share": rc.choice([0.0, 0.0, 0.3]),
+        "host_share": rc.choice([0.0, 0.0, 0.3, 0.8]),
+        "host_variants": rc.random() < 0.6,
         "pre": rc.choice([None, None, "I", "C", "same"]),
         "deep_share": rc.choice([0.0, 0.0, 0.0, 0.3, 0.6]),
     }
